@@ -528,8 +528,9 @@ def _warm() -> None:
     import pynguin.testcase.export  # noqa: F401
 
 
-def evaluate(case: dict[str, Any]) -> Outcome:
-    """In-process (a shard is a fresh interpreter; ``Session.close`` undoes global effects); SIGALRM watchdog against hangs."""
+def evaluate_in_process(case: dict[str, Any]) -> Outcome:
+    """Runs inside the worker process, several cases one after the other (``Session.close`` undoes global effects); SIGALRM is
+    the inner watchdog against hangs."""
     import signal
 
     from vf.core import exc_detail, exc_sig, has_pynguin_frame
@@ -574,4 +575,25 @@ def evaluate(case: dict[str, Any]) -> Outcome:
         shutil.rmtree(tmp, ignore_errors=True)
     if res is not None:
         _analyse(case, module_name, res, out)
+    return out
+
+
+def evaluate(case: dict[str, Any]) -> Outcome:
+    """Evaluates the case in the shard's persistent forked worker (vf/c15c24c35_worker.py): a crash of the interpreter while
+    instrumented code runs, or a hang, ends the worker, not the shard, and is reported as inconclusive (not this property)."""
+    from vf.c15c24c35_worker import run_in_worker
+
+    kind, value = run_in_worker(__name__, "evaluate_in_process", case, timeout=1000)
+    if kind == "ok":
+        return value
+    out = Outcome()
+    if kind == "exc":
+        out.fail(f"unexpected-exception|{value['sig']}", value["detail"])
+    elif kind == "signal":
+        out.labels.append("class:interpreter-crash")
+        out.inconclusive = f"interpreter died with signal {value} while the case ran (instrumented code; C01-C03, not this property)"
+    elif kind == "timeout":
+        out.inconclusive = "case exceeded 1000 s in the worker"
+    else:
+        out.inconclusive = f"worker exited with code {value}"
     return out
